@@ -29,6 +29,7 @@ type half struct {
 	// fault injection
 	Stalled    bool // written bytes are not readable while set
 	CloseAfter int  // >0: after this many bytes have been read the stream breaks
+	Cap        int  // >0: writes block while this many bytes are unread (back-pressure)
 	readTotal  int
 }
 
@@ -62,12 +63,20 @@ func (c *Conn) Read(p []byte) (int, error) {
 	}
 	n := copy(p, h.buf)
 	if h.CloseAfter > 0 && h.readTotal+n >= h.CloseAfter {
+		// the stream breaks here: deliver what is left up to the break point, drop the rest
 		n = h.CloseAfter - h.readTotal
 		h.closed = true
+		h.readTotal += n
+		h.buf = nil
 		h.cond.Broadcast()
+		if n == 0 {
+			return 0, io.EOF
+		}
+		return n, nil
 	}
 	h.buf = h.buf[n:]
 	h.readTotal += n
+	h.cond.Broadcast()
 	return n, nil
 }
 
@@ -75,6 +84,9 @@ func (c *Conn) Write(p []byte) (int, error) {
 	h := c.w
 	h.mu.Lock()
 	defer h.mu.Unlock()
+	for h.Cap > 0 && len(h.buf) >= h.Cap && !h.closed {
+		h.cond.Wait()
+	}
 	if h.closed {
 		return 0, io.ErrClosedPipe
 	}
